@@ -476,6 +476,9 @@ func (v *vc) intrinsic(fr *frame, st *state, instr ssa.Instruction, name string,
 	if name == "sort.Search" && v.sortSearch(fr, st, instr, c, args, res) {
 		return true
 	}
+	if (name == "sort.Sort" || name == "sort.Stable") && v.sortSort(fr, st, instr, c, res, name == "sort.Stable") {
+		return true
+	}
 	if strings.HasPrefix(name, "(*go.uber.org/zap.Logger).") || strings.HasPrefix(name, "go.uber.org/zap.") || strings.HasPrefix(name, "(*log.Logger).") || strings.HasPrefix(name, "log.Print") || strings.HasPrefix(name, "(*go.uber.org/zap.SugaredLogger).") || strings.HasPrefix(name, "go.uber.org/zap/zapcore.") {
 		v.trusted["model: logging (zap/log) has no effect on modelled state"] = true
 		set(v.havocResults(st, sig, "log")...)
@@ -523,6 +526,15 @@ func (v *vc) intrinsicMods(fr *frame, name string, c *ssa.CallCommon) (bool, []s
 	}
 	if strings.HasPrefix(name, "(time.Time).") || strings.HasPrefix(name, "time.") || strings.HasPrefix(name, "(*sync.") || strings.HasPrefix(name, "sync/atomic.Load") || strings.HasPrefix(name, "(encoding/binary.") || name == "encoding/binary.Write" || name == "bytes.Equal" {
 		return true, nil
+	}
+	if name == "sort.Sort" || name == "sort.Stable" {
+		if mi, ok := c.Args[0].(*ssa.MakeInterface); ok {
+			if sl, ok := mi.X.Type().Underlying().(*types.Slice); ok && !isStruct(sl.Elem()) {
+				h, _ := v.elemHeap(sl.Elem())
+				return true, []string{h, "alloc"}
+			}
+		}
+		return true, []string{"*"}
 	}
 	if strings.HasPrefix(name, "fmt.Sprint") || strings.HasPrefix(name, "strconv.") || name == "sort.Search" {
 		return true, nil
